@@ -31,7 +31,7 @@ ASSUMPTIONS = [
 ]
 REQUIRED = {"all": ["judged_calls", "references_computed", "pair:get_kappa->get_deltaMax(True)",
                     "pair:get_deltaMax->get_deltaMax(True)", "after_perturber_raise", "multi_object_histories",
-                    "preset_phosphosites_histories", "distinct_ops_ge_40", "state_snapshots"]}
+                    "preset_phosphosites_histories", "distinct_ops_ge_40", "state_snapshots", "adopted_shuffled_children"]}
 NHIST = {"quick": 280, "thorough": 3000}
 NSEQ = {"quick": 90, "thorough": 600}
 MAX_SHARDS = 16
@@ -85,6 +85,9 @@ def build_ops():
     ops["str"] = lambda o: str(o)
     ops["get_deltaMax(True)"] = lambda o: o.get_deltaMax(True)
     ops["get_deltaMax(returnSeqDeltaMax=True)"] = lambda o: o.get_deltaMax(returnSeqDeltaMax=True)
+    ops["get_deltaMax(1)"] = lambda o: o.get_deltaMax(1)
+    ops["get_deltaMax(np.True_)"] = lambda o: o.get_deltaMax(__import__("numpy").True_)
+    ops["get_deltaMax(False)"] = lambda o: o.get_deltaMax(False)
     ops["get_kappa_X"] = lambda o, *g: o.get_kappa_X(*[list(x) for x in g])
     for n in ["get_FCR", "get_NCPR", "get_mean_net_charge", "get_fraction_expanding"]:
         ops[n + "(pH)"] = lambda o, pH, n=n: getattr(o, n)(pH=pH)
@@ -105,6 +108,10 @@ OPS = build_ops()
 TARGETED = [
     [("get_kappa", ()), ("get_deltaMax(True)", ())],
     [("get_deltaMax", ()), ("get_deltaMax(returnSeqDeltaMax=True)", ())],
+    [("get_deltaMax", ()), ("get_deltaMax(1)", ())],
+    [("get_kappa", ()), ("get_deltaMax(np.True_)", ())],
+    [("get_deltaMax(False)", ()), ("get_deltaMax(1)", ()), ("get_deltaMax(np.True_)", ())],
+    [("get_kappa", ()), ("get_deltaMax", ()), ("get_deltaMax(True)", ())],
     [("get_deltaMax(True)", ()), ("get_kappa", ()), ("get_deltaMax", ())],
     [("get_FCR(pH)", (0,)), ("get_phasePlotRegion", ()), ("get_FCR", ())],
     [("get_NCPR(pH)", (0.0,)), ("get_NCPR", ()), ("get_mean_net_charge", ())],
@@ -328,6 +335,16 @@ def judge(case, rep, S):
         before = snapshot(objs)
         if not pending and rng.random() < 0.15:
             pending.extend((k,) + c for c in rng.choice(TARGETED))
+        if not pending and rng.random() < 0.04:
+            # the live object is replaced by its shuffled child: the child is an object like any other and must
+            # answer like a freshly constructed object of ITS sequence, whatever its parent was asked before
+            child = obj.get_shuffled_sequence()
+            objs[k], seqs[k], presets[k] = child, child.get_sequence(), []
+            last[k] = None
+            history.append((k, "adopt_shuffled_child"))
+            rep.cnt("adopted_shuffled_children")
+            pending.extend((k,) + c for c in rng.choice(TARGETED[:6]))
+            continue
         if not pending and rng.random() < 0.12:
             kind = rng.choice(PERTURBERS)
             outcome = perturb(obj, kind, rng)
